@@ -102,6 +102,8 @@ func runC11(r *Run) {
 	modName, _ := P.constOf(haqqMod+"/x/liquidvesting/types", "ModuleName")
 	r.Rule("R11", "see C09 R6 and R11 (imported): Redeem hands the redeemed schedule to the vesting keeper's addGrant; a merge stores start, end (the later of both schedules' ends), both period lists and the total — an account end time that is not recomputed makes ReadSchedule's shortcut release the redeemed coins when the recipient's *old* schedule ends; and the schedule readers advance their clock by every period")
 	r.Import("R11/C09.", []string{"R6", "R11"}, runC09)
+	r.Rule("R13", "see C08 R8 (imported): a redeem turns the receiver into a vesting account that carries the liquid token's remaining lockup, and the one way out of that account type — ConvertVestingAccount — is refused while anything is still locked up *by the schedule* (HasLockedCoins), not merely while the bank would refuse a transfer (LockedCoins, which subtracts what is delegated): staking the locked coins, converting and undelegating would otherwise release them before the original schedule does")
+	r.Import("R13/C08.", []string{"R8"}, runC08)
 	r.Rule("R1", "PATH+FLOW: tabled events (error-checked, amounts derived from msg.Amount, module account = liquidvesting) precede every success exit of Liquidate and Redeem; guards: module enabled, no unvested coins, locked balance ≥ amount; ApplyVestingSchedule(diffPeriods) follows whenever len(upcomingPeriods) > 0")
 	r.Rule("R2", "OWN: MintCoins/BurnCoins(…, liquidvesting, …) only in Liquidate/Redeem; SetDenom/UpdateDenomPeriods/DeleteDenom/SetDenomCounter called only from the keeper's denom functions, Redeem, genesis and app/upgrades")
 
